@@ -94,7 +94,12 @@ func c12LitValue(t c12Token, l c1xLit) string {
 // c12CheckTokens: src scans without error into exactly the tokens of the shape's skeleton,
 // each @ replaced by one literal token with the right value.
 func c12CheckTokens(shape, src string, lits []c1xLit) string {
-	tmpl, _ := c12Scan(c1xTemplate(shape, len(lits))) // '@' scans as ILLEGAL
+	return c12CheckTemplate(c1xTemplate(shape, len(lits)), src, lits)
+}
+
+// c12CheckTemplate: the same for a skeleton given as text (`@` = one literal).
+func c12CheckTemplate(template, src string, lits []c1xLit) string {
+	tmpl, _ := c12Scan(template) // '@' scans as ILLEGAL
 	got, errs := c12Scan(src)
 	if len(errs) > 0 {
 		return "output does not scan: " + strings.Join(errs, "; ")
@@ -176,6 +181,9 @@ func c12CheckBytes(shape, src string, lits []c1xLit) string {
 }
 
 func (c12) Oracle(c *Case, got []hist.Obs) string {
+	if x, ok := c.Meta["conc"].(*c12Conc); ok {
+		return x.oracle(got) // c12_conc.go: every output of every goroutine
+	}
 	lits := c.Meta["lits"].([]c1xLit)
 	shape := c.Meta["shape"].(string)
 	src, msg := c1xOutput(got)
@@ -193,7 +201,12 @@ func (c12) Oracle(c *Case, got []hist.Obs) string {
 	return c1xFuncOracle(c, src)
 }
 
-func (c12) Compare(c *Case, exp, got []hist.Obs) string { return CompareAll(exp, got) }
+func (c12) Compare(c *Case, exp, got []hist.Obs) string {
+	if x, ok := c.Meta["conc"].(*c12Conc); ok {
+		return x.compare(exp, got)
+	}
+	return CompareAll(exp, got)
+}
 
 // ---------------------------------------------------------------------------------------
 // Generator.
@@ -490,6 +503,8 @@ func (c12) Generate(r *rand.Rand, t string) []*Case {
 	}
 	g.batch(bs, 256, "byte")
 	g.batch(bs, 64, "byte")
+	// ---- several goroutines at once (c12_conc.go); last: the draws of the streams above are unchanged ----
+	g.out = append(g.out, c12ConcGenerate(r, t)...)
 	return g.out
 }
 
@@ -514,6 +529,9 @@ func (c12) Regressions() []*Case {
 // Shrink: every literal of a multi-literal case on its own; a single string with one byte
 // or one half removed.
 func (c12) Shrink(c *Case) []*Case {
+	if _, ok := c.Meta["conc"].(*c12Conc); ok {
+		return c12ConcShrink(c)
+	}
 	lits := c.Meta["lits"].([]c1xLit)
 	nf, fn := c.Meta["noformat"].(bool), c.Meta["func"].(bool)
 	var out []*Case
